@@ -503,6 +503,7 @@ package wire
 //@ func SessionMiddleware$1$1$1
 //@   props C19 C04
 //@   requires [captured] parent != nil && fn != nil
+//@   requires [ctx] ctx != nil
 //@   callsite callback:wire.SessionHandler [parent-first] (#nSession == old(#nSession) ==> ($self == parent && $ctx == ctx0)) && (#nSession != old(#nSession) ==> (#nSession == old(#nSession) + 1 && $self == fn && val($ctx) == #sessCtx && #sessErrTag == 0))
 //@   ensures [ran] #nSession == old(#nSession) + 1 || #nSession == old(#nSession) + 2
 //@   ensures [parent-error-stops] #nSession == old(#nSession) + 1 ==> (result.1 != nil && #sessFn == parent)
@@ -932,6 +933,7 @@ package wire
 //@   ensures [mandatory] {C12} err == nil ==> (mapdom(cast(ctxval(ret0, 2), "wire.Parameters"), "server_encoding") && mapdom(cast(ctxval(ret0, 2), "wire.Parameters"), "client_encoding") && mapdom(cast(ctxval(ret0, 2), "wire.Parameters"), "is_superuser") && mapdom(cast(ctxval(ret0, 2), "wire.Parameters"), "session_authorization") && cast(ctxval(ret0, 2), "wire.Parameters")["is_superuser"] == "off" && cast(ctxval(ret0, 2), "wire.Parameters")["server_encoding"] == "UTF8" && cast(ctxval(ret0, 2), "wire.Parameters")["client_encoding"] == "UTF8")
 //@   ensures [user-keys] {C12} err == nil ==> (forall k :: mapdom(params, k) ==> mapdom(cast(ctxval(ret0, 2), "wire.Parameters"), k))
 //@   ensures [carries] err == nil ==> (CtxSame(ret0, ctx, 0) && CtxSame(ret0, ctx, 1) && CtxSame(ret0, ctx, 3))
+//@   ensures [ctx] err == nil ==> ret0 != nil
 //@   ensures [only-S] #nZ == old(#nZ) && #nE == old(#nE) && (#nOut > old(#nOut) ==> #last == 'S')
 //@   ensures [err-kind] err != nil ==> SinkErr(err)
 //@   modifies WriterState(writer), Out()
